@@ -231,6 +231,96 @@ def C05_walk_small(n_nodes: int, p0: int, p1: int, p2: int, p3: int, p4: int, p5
   return True
 
 
+class _AggRule(object):
+  def __init__(self, result):
+    self.result = result
+
+  def get_aggregate_metric(self, key):
+    return self.result
+
+
+_AGG_DESTS = [('h1', 2004, 'a'), ('h1', 2104, 'b'), ('h2', 2004, 'a')]
+_AGG_POS = [100, 300, 200, 500, 400, 600]        # replica positions of the three destinations on a 2-replica ring
+
+
+_AGG_MODES = [[], ['agg.A'], ['agg.A', 'agg.B'], ['agg.A', 'agg.A'], [None, 'agg.B', 'agg.A'], [None, None]]
+
+
+def C05_aggregated(mode: int, pa: int, pb: int, pm: int, rf: int, diverse: bool) -> bool:
+  """
+  pre: 0 <= mode < len(_AGG_MODES)
+  pre: 0 <= pa < 65536 and 0 <= pb < 65536 and 0 <= pm < 65536
+  pre: 1 <= rf <= 3
+  post: __return__
+  """
+  # aggregation-aware routing applies hash routing to each aggregate name: whatever the replica sets of
+  # the aggregate names are (symbolic ring positions -> overlapping or disjoint), the metric's
+  # destination list is their union, every member configured, none repeated.
+  results = _AGG_MODES[int(mode)]
+  hr = routers.ConsistentHashingRouter(_Settings(rf, diverse, 'carbon_ch'))
+  hr.ring = hashing.ConsistentHashRing([], replica_count=2)
+  it = iter(_AGG_POS)
+  lookups = [('agg.A', pa), ('agg.B', pb), ('in.metric', pm)]
+
+  def position(key):
+    for k, v in lookups:
+      if k == key:
+        return v
+    return next(it)
+  hr.ring.compute_ring_position = position
+  for d in _AGG_DESTS:
+    hr.addDestination(d)
+  r = object.__new__(routers.AggregatedConsistentHashingRouter)
+  r.hash_router = hr
+  r.agg_rules_manager = type('M', (), {'rules': [_AggRule(x) for x in results]})()
+  out = list(r.getDestinations('in.metric'))
+  keys = [k for k in ('agg.A', 'agg.B') if k in results] or ['in.metric']
+  want = []
+  for k in keys:
+    per_name = list(hr.getDestinations(k))
+    if not _well_formed(per_name, _AGG_DESTS, rf, diverse):
+      return False
+    for d in per_name:
+      if d not in want:
+        want.append(d)
+  cover('two_names' if len(keys) == 2 else 'one_name')
+  for i in range(len(out)):
+    if out[i] not in _AGG_DESTS:
+      return False
+    for j in range(i):
+      if out[i] == out[j]:
+        raise AssertionError('aggregation-aware routing returned a destination twice')
+  return sorted(out) == sorted(want)
+
+
+def C05_interleaved(n_nodes: int, pos: int, pos2: int, k: int) -> bool:
+  """
+  pre: 1 <= n_nodes <= 3
+  pre: 0 <= pos < 65536 and 0 <= pos2 < 65536
+  pre: 0 <= k <= 3
+  post: __return__
+  """
+  # a look-up is a generator: suspending it after k destinations, running another look-up on the same
+  # ring to the end and resuming must give the same list as an undisturbed look-up (same key, same
+  # destination set -> same ordered list).
+  ring, nodes, state = _small_ring(_AGG_POS, n_nodes)
+  state['lookup'] = pos
+  alone = list(ring.get_nodes('k'))
+  ga = ring.get_nodes('k')
+  first = []
+  for _ in range(k):
+    x = next(ga, None)
+    if x is not None:
+      first.append(x)
+  state['lookup'] = pos2
+  other = list(ring.get_nodes('k2'))
+  state['lookup'] = pos
+  rest = list(ga)
+  cover('resumed')
+  state['lookup'] = pos2
+  return first + rest == alone and other == list(ring.get_nodes('k2'))
+
+
 def C05_fast(n_nodes: int, h0: int, h1: int, h2: int, h3: int, hk: int) -> bool:
   """
   pre: 1 <= n_nodes <= 4
@@ -311,6 +401,14 @@ HARNESSES = [
     covers=['walked'], replay='replay_after_remove',
     encodes=['carbon.routers:ConsistentHashingRouter.removeDestination', 'carbon.routers:ConsistentHashingRouter.getDestinations', 'carbon.hashing:ConsistentHashRing.remove_node'],
     assumptions=['routers built by real addDestination calls followed by one removeDestination (each destination in turn); every ring position symbolic (quick: two position ranges of ~25 ring entries per removed destination; thorough: the whole ring); RF 1..4 and DIVERSE both enumerated inside each path']),
+  H('C05_aggregated', quick=dict(timeout=280, shards=[('m%d' % k, 'mode == %d' % k) for k in (0, 1, 3, 5)] + [('m%d_rf%d' % (k, f), 'mode == %d and rf == %d' % (k, f)) for k in (2, 4) for f in (1, 2, 3)]),
+    covers=['two_names', 'one_name'], twin_pre=['1 <= mode <= 2 and rf == 2 and not diverse'],
+    encodes=['carbon.routers:AggregatedConsistentHashingRouter.getDestinations', 'carbon.routers:ConsistentHashingRouter.getDestinations', 'carbon.hashing:ConsistentHashRing.get_nodes'],
+    assumptions=['0-3 stub aggregation rules mapping the metric to nothing / aggregate A / aggregate B (six rule-result lists, symbolic index); real consistent-hashing router on a 2-replica ring of three destinations '
+                 '(two on one server); the ring positions of both aggregate names and of the metric are symbolic, so their replica sets overlap or not; RF 1..3, DIVERSE both']),
+  H('C05_interleaved', quick=dict(timeout=200), covers=['resumed'],
+    encodes=['carbon.hashing:ConsistentHashRing.get_nodes (generator state)'],
+    assumptions=['2-replica ring of 1-3 nodes, two symbolic positions; the first look-up is suspended after k destinations while a second one runs to completion']),
   H('C05_walk_small', quick=dict(timeout=240, shards=[('n1', 'n_nodes == 1'), ('n2', 'n_nodes == 2')]),
     thorough=dict(timeout=1500, shards=[('n1', 'n_nodes == 1'), ('n2', 'n_nodes == 2'), ('n3', 'n_nodes == 3')]),
     covers=['looked_up'],
